@@ -72,7 +72,7 @@ PROPS = {
         'level': 'proof',
     },
     'C13': {
-        'modules': ['contracts.c14_expr', 'contracts.c13_term', 'contracts.c15_toposort'],
+        'modules': ['contracts.c14_expr', 'contracts.c13_term', 'contracts.c15_toposort', 'contracts.c12_legal'],
         'standins': ['prophyc_robust', 'isar_order'],
         'trusted': PYVC_TRUST + ['ply / ElementTree / argparse internals (assumed contracts)'],
         'assumptions': ['exception classes the property does not list (xml ParseError, the bare Exception of patch.py, OSError) are reported as notes'],
